@@ -357,6 +357,18 @@ Proof.
 Qed.
 End Gen.
 
+(* runs compose *)
+Lemma m_run_app {RF : RecFun} : forall ts1 ts2 m,
+  m_run m (ts1 ++ ts2) =
+  (fst (m_run (fst (m_run m ts1)) ts2), snd (m_run m ts1) ++ snd (m_run (fst (m_run m ts1)) ts2)).
+Proof.
+  induction ts1 as [|t ts1 IH]; intros ts2 m; cbn [app m_run fst snd].
+  - destruct (m_run m ts2); reflexivity.
+  - destruct (m_step m t) as [m1 o1]. rewrite IH.
+    destruct (m_run m1 ts1) as [m2 o2]. cbn [fst snd].
+    destruct (m_run m2 ts2) as [m3 o3]. cbn [fst snd]. rewrite app_assoc. reflexivity.
+Qed.
+
 (* ------------------------------------------------------------------ termination, whatever the memory does *)
 (* The bound on the work of one snapshot() call does not depend on the memory model at all: for ANY
    load function and ANY fence function - whatever values the loads return - every access of the
